@@ -106,7 +106,9 @@ static void cfg_place(void)
 static void cfg_buffer(void)
 {
     if (aux) { xfree(aux); aux = NULL; }
-    if (C.aux != 9999) {
+    if (C.aux == 9998) {
+        persistent_buffer(&st, NULL, 7);          /* no memory, but a size: as good as no buffer */
+    } else if (C.aux != 9999) {
         aux = C.aux ? xblock((size_t)C.aux) : xblock0();
         persistent_buffer(&st, aux, (size_t)C.aux);
     }
